@@ -1,31 +1,32 @@
-(* C06 for MTVRP -- check_solution_validity against the problem definition: what it guarantees, what it accepts,
-   and the four places where it deviates (each with a witness). Statements only. *)
+(* C06 for MTVRP -- check_solution_validity against the problem definition: what it guarantees, what it accepts (for any
+   speed since /repo ea27328), and the three places where it still deviates (each with a witness; open known findings).
+   Statements only. *)
 From Coq Require Import ZArith List Bool.
 From RL4CO Require Import Base.Num Base.EnvSig Spec.Routes Spec.VRPFeatures Env.MTVRP Env.MTVRPProofs.
 Import ListNotations.
 Open Scope Z_scope.
 
-(* COMPLETENESS (speed 1: travel time = distance).  Every action list that is feasible by the problem definition
+(* COMPLETENESS (any speed: the clock runs on tt = distance / speed).  Every action list that is feasible by the problem definition
    (incl. ones that never return to the depot at the end) is accepted, provided the instance passes the checker's own
    data asserts ([data_ok]: limit, windows, service times >= 0; lo < hi; lo j + d(j,0) + service j <= hi 0 for every
    node) and -- for open routes only -- leaves time to drive home after any admissible service
-   (hi x + service x + d(x,0) <= hi 0).  Without that last condition the statement is false, see below. *)
+   (hi x + service x + t(x,0) <= hi 0).  Without that last condition the statement is false, see below. *)
 Theorem C06_mtvrp_checker_complete :
   forall (i : mtvrp_inst) (acts : list nat),
-    mtvrp_wfb i = true -> tt i = dist i -> data_ok exact i = true ->
-    (opn i = false \/ forall x, (1 <= x <= n_of i)%nat -> hi i x + sv i x + dfun i x 0%nat <= hi i 0%nat) ->
+    mtvrp_wfb i = true -> data_ok exact i = true ->
+    (opn i = false \/ forall x, (1 <= x <= n_of i)%nat -> hi i x + sv i x + tfun i x 0%nat <= hi i 0%nat) ->
     mtvrp_feasible i acts -> (n_of i <= length acts)%nat ->
     mtvrp_checker exact i acts = true.
 Proof. exact mtvrp_checker_complete. Qed.
 Print Assumptions C06_mtvrp_checker_complete.
 
-(* SOUNDNESS (speed 1), exact -- this checker uses no tolerance.  Accepted => every customer exactly once, nodes in
+(* SOUNDNESS (any speed), exact -- this checker uses no tolerance.  Accepted => every customer exactly once, nodes in
    range, delivery and pickup load of EVERY route within the capacity, and for every route that the action list closes
    with a depot visit: length within the limit and all time windows (incl. the depot's, unless open) met.
    Not guaranteed: linehauls before backhauls; the way back of an unclosed last route. *)
 Theorem C06_mtvrp_checker_sound :
   forall (i : mtvrp_inst) (acts : list nat),
-    mtvrp_wfb i = true -> tt i = dist i -> mtvrp_checker exact i acts = true ->
+    mtvrp_wfb i = true -> mtvrp_checker exact i acts = true ->
     (forall j, (1 <= j <= n_of i)%nat -> occ j acts = 1%nat) /\
     (forall a, In a acts -> (a <= n_of i)%nat) /\
     Forall (fun r => load (dlf i) r <= cap i /\ load (dbf i) r <= cap i) (routes acts) /\
@@ -37,7 +38,7 @@ Print Assumptions C06_mtvrp_checker_sound.
 (* hence: without backhaul customers, an accepted action list that ends at the depot is a solution of the problem *)
 Theorem C06_mtvrp_checker_sound_nobackhaul :
   forall (i : mtvrp_inst) (acts' : list nat),
-    mtvrp_wfb i = true -> tt i = dist i -> (forall x, dbf i x = 0) ->
+    mtvrp_wfb i = true -> (forall x, dbf i x = 0) ->
     mtvrp_checker exact i (acts' ++ [0%nat]) = true -> mtvrp_feasible i (acts' ++ [0%nat]).
 Proof. exact mtvrp_checker_sound_nobackhaul. Qed.
 Print Assumptions C06_mtvrp_checker_sound_nobackhaul.
@@ -56,31 +57,32 @@ Print Assumptions C06_mtvrp_checker_rejects_duplicate.
 
 Theorem C06_mtvrp_checker_rejects_overload :
   forall (i : mtvrp_inst) (acts : list nat) (r : list nat),
-    mtvrp_wfb i = true -> tt i = dist i -> In r (routes acts) ->
+    mtvrp_wfb i = true -> In r (routes acts) ->
     (cap i < load (dlf i) r \/ cap i < load (dbf i) r) -> mtvrp_checker exact i acts = false.
 Proof. exact mtvrp_checker_rejects_overload. Qed.
 Print Assumptions C06_mtvrp_checker_rejects_overload.
 
 Theorem C06_mtvrp_checker_rejects_overlength :
   forall (i : mtvrp_inst) (acts : list nat) (r : list nat),
-    mtvrp_wfb i = true -> tt i = dist i -> In r (removelast (routes acts)) ->
+    mtvrp_wfb i = true -> In r (removelast (routes acts)) ->
     lim i < route_cost (dfun i) (opn i) r -> mtvrp_checker exact i acts = false.
 Proof. exact mtvrp_checker_rejects_overlength. Qed.
 Print Assumptions C06_mtvrp_checker_rejects_overlength.
 
 Theorem C06_mtvrp_checker_rejects_late :
   forall (i : mtvrp_inst) (acts : list nat) (r : list nat),
-    mtvrp_wfb i = true -> tt i = dist i -> In r (removelast (routes acts)) ->
+    mtvrp_wfb i = true -> In r (removelast (routes acts)) ->
     tw_ok (tfun i) (opn i) (lo i) (hi i) (sv i) 0 0%nat 0 r = false -> mtvrp_checker exact i acts = false.
 Proof. exact mtvrp_checker_rejects_late. Qed.
 Print Assumptions C06_mtvrp_checker_rejects_late.
 
-(* ---- the deviations of the shipped checker, each with a witness evaluated on the model (and replayed on the code) *)
+(* ---- the remaining deviations of the checker (open known findings), each with a witness evaluated on the model and
+   replayed on the code on every run *)
 
 (* (1) a linehaul customer served after a backhaul customer is accepted *)
 Theorem C06_mtvrp_checker_precedence_refuted :
   exists (i : mtvrp_inst) (acts : list nat),
-    mtvrp_wfb i = true /\ tt i = dist i /\ mtvrp_checker exact i acts = true /\ mtvrp_feasibleb i 0 acts = false /\
+    mtvrp_wfb i = true /\ mtvrp_checker exact i acts = true /\ mtvrp_feasibleb i 0 acts = false /\
     Forall (fun r => prec_ok (dlf i) (dbf i) r = false) (removelast (routes acts)).
 Proof. exact mtvrp_checker_precedence_refuted. Qed.
 Print Assumptions C06_mtvrp_checker_precedence_refuted.
@@ -89,7 +91,7 @@ Print Assumptions C06_mtvrp_checker_precedence_refuted.
    distance limit; appending the depot visit makes the checker reject it *)
 Theorem C06_mtvrp_checker_final_return_refuted :
   exists (i : mtvrp_inst) (acts : list nat),
-    mtvrp_wfb i = true /\ tt i = dist i /\ mtvrp_checker exact i acts = true /\ mtvrp_feasibleb i 0 acts = false /\
+    mtvrp_wfb i = true /\ mtvrp_checker exact i acts = true /\ mtvrp_feasibleb i 0 acts = false /\
     mtvrp_checker exact i (acts ++ [0%nat]) = false.
 Proof. exact mtvrp_checker_final_return_refuted. Qed.
 Print Assumptions C06_mtvrp_checker_final_return_refuted.
@@ -98,22 +100,20 @@ Print Assumptions C06_mtvrp_checker_final_return_refuted.
    the data asserts, is REJECTED (the depot deadline is tested on the way back that an open route does not drive) *)
 Theorem C06_mtvrp_checker_open_depot_deadline_refuted :
   exists (i : mtvrp_inst) (acts : list nat),
-    mtvrp_wfb i = true /\ tt i = dist i /\ data_ok exact i = true /\
+    mtvrp_wfb i = true /\ data_ok exact i = true /\
     adm (E:=MTVRP exact false) i acts = true /\ done (MTVRP exact false) i (run (E:=MTVRP exact false) i acts) = true /\
     mtvrp_feasibleb i 0 acts = true /\ mtvrp_checker exact i acts = false.
 Proof. exact mtvrp_checker_open_depot_deadline_refuted. Qed.
 Print Assumptions C06_mtvrp_checker_open_depot_deadline_refuted.
 
-(* (4) speed != 1: the checker's clock ignores the speed, so it rejects a mask-made feasible solution (speed 2) and
-   accepts a late visit (speed 1/2) *)
-Theorem C06_mtvrp_checker_ignores_speed_refuted :
-  (exists (i : mtvrp_inst) (acts : list nat),
-     mtvrp_wfb i = true /\ adm (E:=MTVRP exact false) i acts = true /\ mtvrp_feasibleb i 0 acts = true /\
-     mtvrp_checker exact i acts = false) /\
-  (exists (i : mtvrp_inst) (acts : list nat),
-     mtvrp_wfb i = true /\ mtvrp_feasibleb i 0 acts = false /\ mtvrp_checker exact i acts = true).
-Proof. exact mtvrp_checker_ignores_speed_refuted. Qed.
-Print Assumptions C06_mtvrp_checker_ignores_speed_refuted.
+(* (4) FIXED by /repo ea27328 (recorded as fixed in known_findings.json): the checker's clock used to ignore the speed.
+   The two old witnesses now come out as the problem definition says -- instances of the theorems above, which no
+   longer assume speed 1: the mask-made feasible solution at speed 2 is accepted, the late visit at speed 1/2 rejected *)
+Example C06_mtvrp_checker_respects_speed :
+  mtvrp_wfb fast_inst = true /\ adm (E:=MTVRP exact true) fast_inst [1; 0]%nat = true /\
+  mtvrp_feasibleb fast_inst 0 [1; 0]%nat = true /\ mtvrp_checker exact fast_inst [1; 0]%nat = true /\
+  mtvrp_wfb slow_inst = true /\ mtvrp_feasibleb slow_inst 0 [1; 0]%nat = false /\ mtvrp_checker exact slow_inst [1; 0]%nat = false.
+Proof. exact mtvrp_checker_respects_speed. Qed.
 
 Example C06_mtvrp_nonvacuous :
   let i := {| dl := [0; 32; 32; 0]; db := [0; 0; 0; 40]; cap := 64; lim := 60; opn := false;
